@@ -17,7 +17,6 @@ import (
 	"fmt"
 	"math/rand"
 	"net"
-	"net/netip"
 	"strings"
 	"testing"
 	"time"
@@ -538,7 +537,6 @@ func (r *reqRun) step(s mStep) bool {
 	now := r.clock.Now()
 	var pred, got obs
 	before := r.o.clone()
-	traced := true
 	switch s.Op {
 	case "Request":
 		k := qk(s.K)
@@ -578,14 +576,12 @@ func (r *reqRun) step(s mStep) bool {
 		pred, _, _ = r.o.recordQ(k, s.Cause)
 		got = pred
 		ev["k"], ev["cause"] = s.K, s.Cause
-		traced = false
 	case "RecordZone":
 		k := zk(s.ZK)
 		r.store.RecordZoneFailure(dns.Question{Name: "x." + r.sh.realName(k.z, nil), Qtype: dns.TypeA, Qclass: r.sh.classes[k.c]}, r.sh.realName(k.z, r.rng))
 		pred, _, _ = r.o.recordZ(k, "authority")
 		got = pred
 		ev["zk"], ev["cause"] = s.ZK, "authority"
-		traced = false
 	case "Lookup", "LookupWire":
 		k := qk(s.K)
 		var hit mcache.FailureHit
@@ -634,7 +630,6 @@ func (r *reqRun) step(s mStep) bool {
 		pred.n = r.o.resetZ(k)
 		got = pred
 		ev["zk"] = s.ZK
-		traced = false
 	case "Tick":
 		r.clock.Advance(time.Duration(s.D) * time.Second)
 		ev["d"] = s.D
@@ -672,12 +667,10 @@ func (r *reqRun) step(s mStep) bool {
 	if diff := r.o.resync(rs); diff != "" {
 		r.drift("%s: state differs: %s", s.String(), diff)
 	}
-	if traced || true {
-		q, z := rs.traceRows(now, r.in.Cfg.Max)
-		ev["hit"], ev["kind"], ev["src"], ev["streak"], ev["rel"], ev["n"] = got.hit, got.kind, got.src(), got.streak, got.rel, got.n
-		ev["fq"], ev["fz"] = q, z
-		r.tr.emit(ev)
-	}
+	q, z := rs.traceRows(now, r.in.Cfg.Max)
+	ev["hit"], ev["kind"], ev["src"], ev["streak"], ev["rel"], ev["n"] = got.hit, got.kind, got.src(), got.streak, got.rel, got.n
+	ev["fq"], ev["fz"] = q, z
+	r.tr.emit(ev)
 	return r.res.NViolations() == start
 }
 
@@ -739,5 +732,3 @@ func TestRequestReplay(t *testing.T) {
 	}
 	res.Count("trace_lines", tr.n)
 }
-
-var _ = netip.Prefix{}
